@@ -407,3 +407,31 @@ Proof.
   apply edges_fold_pure in Hst as (A & B & C & _). cbn [ps_mtu ps_ifs ps_segs app map] in A, B, C.
   rewrite A, B, Hsegs, C. auto.
 Qed.
+
+(** * the decidable well-formedness test is sound *)
+From Sci Require Import Combine.Obs.
+Lemma nodupb_sound l : nodupb l = true -> NoDup l.
+Proof.
+  induction l as [|x r IH]; cbn [nodupb]; intros H; [constructor|]. apply andb_true_iff in H as [H1 H2].
+  constructor; [|auto]. intros Hin. apply negb_true_iff in H1.
+  assert (existsb (N.eqb x) r = true) by (apply existsb_exists; exists x; split; [exact Hin|apply N.eqb_refl]). congruence.
+Qed.
+
+Lemma nth_error_enumerate {A} (l : list A) i a : nth_error l i = Some a -> In (i, a) (enumerate l).
+Proof.
+  intros H. destruct (skipn_enumerate_cons l i a H) as (r & Hr).
+  apply (In_skipn' i). rewrite Hr. left; reflexivity.
+Qed.
+
+Lemma wf_segb_sound s : wf_segb s = true -> wf_segment s.
+Proof.
+  unfold wf_segb, wf_segment. intros H. apply andb_true_iff in H as [H H3]. apply andb_true_iff in H as [H1 H2].
+  split; [apply Nat.leb_le; exact H1|]. split; [apply nodupb_sound; exact H2|].
+  intros i ae Hn. rewrite forallb_forall in H3. specialize (H3 _ (nth_error_enumerate _ _ _ Hn)).
+  unfold wf_entryb in H3. apply andb_true_iff in H3 as [H3 Hp]. apply andb_true_iff in H3 as [Hi He].
+  apply Bool.eqb_prop in Hi, He. split; [|split].
+  - rewrite <- N.eqb_eq, Hi. apply Nat.eqb_eq.
+  - rewrite <- N.eqb_eq, He. apply Nat.eqb_eq.
+  - intros p Hin. rewrite forallb_forall in Hp. specialize (Hp p Hin). apply andb_true_iff in Hp as [A B].
+    apply negb_true_iff, N.eqb_neq in A. apply N.eqb_eq in B. auto.
+Qed.
